@@ -24,9 +24,15 @@ Key = _K.create()
 IntArr = z3.ArraySort(z3.IntSort(), z3.IntSort())
 
 
+_KNORM = z3.RecFunction('knorm', PyVal, PyVal)
+_kx = z3.Const('knorm.x', PyVal)
+z3.RecAddDefinition(_KNORM, [_kx], z3.If(PyVal.is_PB(_kx), PyVal.PI(z3.If(PyVal.b(_kx), z3.IntVal(1), z3.IntVal(0))), _kx))
+
+
 def knorm(t):
-    """Normal form of a key component: bool -> int (True == 1 as dict keys)."""
-    return z3.If(PyVal.is_PB(t), PyVal.PI(z3.If(PyVal.b(t), z3.IntVal(1), z3.IntVal(0))), t)
+    """Normal form of a key component: bool -> int (True == 1 as dict keys).  A defined function
+    (not an inlined if-then-else) so that key terms can serve as instantiation patterns."""
+    return _KNORM(t)
 
 
 def mkkey(I, v):
